@@ -3,6 +3,7 @@ package rules
 import (
 	"go/token"
 	"go/types"
+	"strings"
 
 	"golang.org/x/tools/go/ssa"
 
@@ -65,6 +66,7 @@ func runC18(c *Ctx) {
 		"(R1) every store to Reader.Msg in the library is one of: a left-advance v[a:] of the current window (no upper bound), an extension v[:h] of a window whose length is proved to be 0 at that point (so the new window starts at the high-water mark), a fresh make, or nil; no other field of the reader and no package variable keeps a byte slice (no second handle through which old bytes could be re-exposed); Go slices cannot move their start backwards, so a new window is disjoint from every view handed out before. " +
 		"(R2) the only writes into the window's backing array are io.ReadFull into the window just produced by reset; nothing appends to, copies into or stores through a window-derived slice. (R3) package wire only reads the window. A 'reuse the buffer' optimisation (Msg = buf[:n], Msg = Msg[:0], a retained chunk or pool) violates R1 at that store."
 	R.Assumptions = []string{"user code does not assign the exported Reader.Msg field itself"}
+	R.Explanation += " (R2) also: clear(), encoding/binary Put*, Read and io.ReadAtLeast into window-derived slices are writes."
 	R.Trusted = []string{"go/types + go/ssa", "Go slice semantics: v[a:] shares the allocation and never starts before v"}
 	sum := c.summaries("C18.R1")
 	mods := c.modSets()
@@ -174,6 +176,28 @@ func runC18(c *Ctx) {
 						if msgDerived(lin(), cc.Args[0], 0) {
 							R.Fail("C18.R2", fkey(fn)+":append-to-window", c.at(x), "library code never writes into bytes of the message window", "append() to a window-derived slice writes into the shared allocation behind it")
 						}
+					}
+					if core.BuiltinName(cc) == "clear" && msgDerived(lin(), cc.Args[0], 0) {
+						R.Fail("C18.R2", fkey(fn)+":clear-window", c.at(x), "library code never writes into bytes of the message window", "clear() of a window-derived slice zeroes bytes that strings and values already handed to callbacks alias")
+					}
+					// other writers of a byte slice: encoding/binary Put*, Read on an io.Reader, io.ReadAtLeast
+					if callee := core.StaticCallee(x); callee != nil && callee.Pkg != nil {
+						pp, nm := callee.Pkg.Pkg.Path(), callee.Name()
+						dstIdx := -1
+						switch {
+						case pp == "encoding/binary" && strings.HasPrefix(nm, "Put"):
+							dstIdx = len(cc.Args) - 2
+						case pp == "io" && nm == "ReadAtLeast":
+							dstIdx = 1
+						case pp == "crypto/rand" && nm == "Read":
+							dstIdx = 0
+						}
+						if dstIdx >= 0 && dstIdx < len(cc.Args) && msgDerived(lin(), cc.Args[dstIdx], 0) {
+							R.Fail("C18.R2", fkey(fn)+":writes-window:"+nm, c.at(x), "library code never writes into bytes of the message window", fname(callee)+" writes into a window-derived slice")
+						}
+					}
+					if cc.IsInvoke() && cc.Method.Name() == "Read" && len(cc.Args) == 1 && msgDerived(lin(), cc.Args[0], 0) {
+						R.Fail("C18.R2", fkey(fn)+":read-into-window", c.at(x), "the only write into the window's allocation is io.ReadFull into the window just produced by reset", "Read(p) with a window-derived destination")
 					}
 					if core.FuncIs(core.StaticCallee(x), "io", "ReadFull") {
 						dst := cc.Args[1]
